@@ -8,6 +8,7 @@ import (
 	"go/constant"
 	"go/types"
 	"regexp"
+	"sort"
 	"strings"
 
 	"golang.org/x/tools/go/ssa"
@@ -46,6 +47,12 @@ func (vc *FuncVC) havocUserHeap(st *State) {
 	st.heapHavoc(dn, dso)
 	st.heapHavoc(vn, vso)
 	st.heapHavoc("H_SharedStore_data", arraySort(SInt, SInt))
+	// user code may re-wire flows through Connect: the transition tables of all flows
+	for _, mt := range vc.eng.flowTableTypes() {
+		fd, fdso, fv, fvso := mapHeaps(vc.w, mt)
+		st.heapHavoc(fd, fdso)
+		st.heapHavoc(fv, fvso)
+	}
 	// allocation only grows
 	old := st.heapGet("alive", aliveSort)
 	nw := st.heapHavoc("alive", aliveSort)
@@ -407,12 +414,38 @@ func (vc *FuncVC) callContract(st *State, fr *Frame, instr ssa.Instruction, call
 			st.assume(g)
 		}
 	}
+	if ct.Joins {
+		// no task is running any more: the captured cells hold whatever the tasks wrote last, and stay quiescent
+		var keys []string
+		for k := range st.volatile {
+			keys = append(keys, k)
+		}
+		sort.Strings(keys)
+		for _, k := range keys {
+			i := strings.Index(k, "|")
+			hn, ref := k[:i], k[i+1:]
+			hs := vc.heapSorts[hn]
+			if hs == "" {
+				continue
+			}
+			_, inner := splitArraySort(hs)
+			cur := st.heapGet(hn, hs)
+			st.heapSet(hn, hs, sto(cur, ref, st.fresh("joined", inner)))
+		}
+		st.volatile = nil
+	}
 	st.event("call %s", ct.Name)
 	return res
 }
 
 // assumeTypeWF: facts that hold for every value of a Go type coming from outside.
 func (vc *FuncVC) assumeTypeWF(st *State, v V, t types.Type) {
+	if it, ok := t.Underlying().(*types.Interface); ok && it.NumMethods() > 0 {
+		// a non-nil value of interface type I has a dynamic type that implements I
+		if nt, named := t.(*types.Named); named && nt.Obj().Pkg() != nil && nt.Obj().Pkg() == vc.eng.pkg.Types {
+			st.assume(implies(not(eq(v.T, "nilI")), app("implements", app("typ", v.T), vc.ifaceNameOf(t))))
+		}
+	}
 	switch t.Underlying().(type) {
 	case *types.Slice:
 		st.assume(vc.sliceWF(v.T))
@@ -903,6 +936,14 @@ func (vc *FuncVC) libCall(st *State, fr *Frame, instr ssa.Instruction, callee *s
 				}
 			}
 		}
+		return []any{V{r, SIface, nil}}, true
+	case "errors.Is":
+		vc.trusted["T9 fmt.Errorf returns a fresh non-nil error that wraps each %w operand; errors.Is is reflexive and follows wrapping"] = true
+		a, b := args[0].(V), args[1].(V)
+		return []any{V{and(not(eq(a.T, "nilI")), app("Is", a.T, b.T)), SBool, types.Typ[types.Bool]}}, true
+	case "errors.New":
+		r := st.fresh("errnew", SIface)
+		st.assume(not(eq(r, "nilI")))
 		return []any{V{r, SIface, nil}}, true
 	case "fmt.Sprintf", "fmt.Sprint":
 		return []any{V{st.fresh("sprintf", SStr), SStr, types.Typ[types.String]}}, true
